@@ -82,7 +82,7 @@ CLAIMS.update({
     "C05": dict(text="Partial proof: C05_sockaddr_slices_in_range (every slice expression of parseSockaddr/hexToIP is inside the string, for every input), C05_hex_sound. The Gallina model of the whole Data() pipeline is total by construction and agrees with the implementation on every spliced record of every specially handled type; "
                      "the run itself checks no panic (recover), no hang (5 s deadline) and equal results on repeated Data/Tags/ToMapStr calls.",
                 note=PARSE_NOTE + " PARTIAL: absence of panics in regexp, strconv, fmt, net and in the glue is observed on generated inputs, not proved; termination of RE2 is assumed.", technique="Coq proof of in-range slicing for the index-arithmetic anchors + total executable model + fuzzed correspondence", design="6 C05"),
-    "C12": dict(text="Proof: C12_hex_roundtrip (every byte string), C12_quoted_field_tokenised (every key, every double-quoted value without a double quote that does not end in a backslash, followed by any text, is tokenised as exactly that field), C12_body_tokenised (a whole body of blank-separated fields, each value quoted or one plain token, is cut into exactly those fields in order), C12_fields_extracted (the extraction before enrichment maps every key to the value written, quotes removed), C12_data_keeps_plain_fields (Data() of every record type without enrichment of its own returns every ordinary field of such a body with the value written), C12_hex_field_decodes (a hex-encoded field decodes to the encoded bytes, NULs as blanks), C12_sockaddr_ipv4 / C12_sockaddr_unix (every IPv4 address and port, every unix path), C12_result_rule / C12_unset_rule / C12_exit_rule (the derived fields). "
+    "C12": dict(text="Proof: C12_hex_roundtrip (every byte string), C12_quoted_field_tokenised (every key, every double-quoted value without a double quote that does not end in a backslash, followed by any text, is tokenised as exactly that field), C12_body_tokenised (a whole body of blank-separated fields, each value quoted or one plain token, is cut into exactly those fields in order), C12_fields_extracted (the extraction before enrichment maps every key to the value written, quotes removed), C12_data_keeps_plain_fields (Data() of every record type without enrichment of its own returns every ordinary field of such a body with the value written), C12_hex_field_decodes (a hex-encoded field decodes to the encoded bytes, NULs as blanks), C12_execve_arguments / C12_execve_hex_argument (every EXECVE argument decoded or kept, nothing else changed), C12_sockaddr_ipv4 / C12_sockaddr_unix (every IPv4 address and port, every unix path), C12_result_rule / C12_unset_rule / C12_exit_rule (the derived fields). "
                      "The remaining pipeline (trimming, placeholders, nested msg=, per-type decoding incl. IPv4/IPv6/unix socket addresses, derived fields) is modelled executable and decided per generated record: independent expectations from the generator, and model = implementation on the whole map. Known finding: a quote inside a nested msg='...' field.",
                 note=PARSE_NOTE + " PARTIAL: per-type enrichment and IPv6 text have no theorem.", technique="Coq proofs of the two kernel encodings + executable model of Data() + correspondence", design="6 C12"),
 })
